@@ -1,5 +1,6 @@
 import Qvnt.Props.C10
 import Qvnt.Props.Code.C11
+import Qvnt.Props.Code.C10
 open Qvnt
 #print axioms C10_position_is_bit
 #print axioms C10_bits
@@ -22,3 +23,7 @@ open Qvnt
 #print axioms C10_macro_call_nested
 #print axioms C10_macro_call_bad_parameter
 #print axioms C11_code_refine
+#print axioms C10_code_qubit_index
+#print axioms C10_code_disjoint_bits
+#print axioms C10_code_once_in_order
+#print axioms C10_code_macro_subst
